@@ -1,0 +1,25 @@
+//go:build verif
+
+package proxy
+
+import "fmt"
+
+// VerifC11RunHeld does what STCPProxy.Run does (VisitorManager.Listen, record the listener) but holds the
+// accept goroutine back: it is started by calling the returned function.  Lets the C11 harness realise the
+// schedule "visitor connections are queued, the proxy is closed, only then the accept goroutine runs".
+func VerifC11RunHeld(p Proxy) (start func(), err error) {
+	pxy, ok := p.(*STCPProxy)
+	if !ok {
+		return nil, fmt.Errorf("not an stcp proxy")
+	}
+	allowUsers := pxy.cfg.AllowUsers
+	if len(allowUsers) == 0 {
+		allowUsers = []string{pxy.GetUserInfo().User}
+	}
+	listener, err := pxy.rc.VisitorManager.Listen(pxy.GetName(), pxy.cfg.Secretkey, allowUsers)
+	if err != nil {
+		return nil, err
+	}
+	pxy.listeners = append(pxy.listeners, listener)
+	return pxy.startCommonTCPListenersHandler, nil
+}
